@@ -42,6 +42,9 @@ type BStep struct {
 	Raw    []byte            `json:"raw,omitempty"`
 	Canned []byte            `json:"canned,omitempty"` // api call against a foreign peer that answers with this frame
 	Closed bool              `json:"closed,omitempty"` // the connection is closed before the stub runs
+	// CannedWant (canned steps): "" = the declared error Reply.Error of this interface; "generic:<full name>" = an error that
+	// this description does not declare - the generic *varlink.Error carrying exactly that name; "reply" = success with Reply.Out
+	CannedWant string `json:"canned_want,omitempty"`
 	Reply  BReply            `json:"reply"`
 	Recvs  int               `json:"recvs"`
 }
